@@ -516,6 +516,31 @@ struct C09 : Scenario {
 			std::string method = gm[rng.below(8)];
 			p.sets("method", method);
 			auto pls = payloads_for(method);
+			bool tabled = method == "-pm2-" || method == "-lh5-" || method == "-lh7-";
+			if (tabled && rng.chance(1, 2)) {
+				// table headers with boundary values followed by a long run of arbitrary bits: decoding goes on past the points
+				// at which tables are sent again
+				gen_structured(rng, method, p.stream);
+				if (method == "-pm2-" && rng.chance(2, 3)) {
+					// a code tree holding the single code 0 (every symbol is "one byte from the history list", a few bits each):
+					// ANY bits that follow decode, so the stream runs through all the points (1, 2, 4, 8 KiB ...) at which -pm2-
+					// may send its tables again, with whatever the bits say there
+					BitW w;
+					w.put((uint32_t) rng.below(2), 1);
+					w.put(1, 5);
+					w.put(0, 3);
+					w.finish();
+					p.stream = w.out;
+					p.seti("tails", 8);   // eight different continuations of this header, each with its own sweep
+				}
+				size_t tail = 1200 + rng.below(2500);
+				for (size_t i = 0; i < tail; ++i) p.stream.push_back(rng.byte());
+				p.seti("declared", 9000);
+				p.seti("short", 1 + (int64_t) rng.below(4));
+				p.sets("eod", "short");
+				p.sets("payload", "structured");
+				return p;
+			}
 			if (!pls.empty()) {
 				const Payload *pl = pls[0];
 				for (auto *q : pls) if (q->plain.size() > pl->plain.size()) pl = q;
@@ -569,25 +594,36 @@ struct C09 : Scenario {
 			g_sim.budget = ~0ULL;
 			uint64_t evals = 0;
 			// how many requests does the undisturbed decode make?
+			for (int64_t tl = 0; tl < std::max<int64_t>(1, p.geti("tails", 1)) && res.ok; ++tl) {
+			Bytes stream_t = p.stream;
+			if (tl > 0) {
+				// another continuation behind the same two header bytes
+				Rng tr(p.seed, 909, p.run * 16 + (uint64_t) tl);
+				for (size_t i = 2; i < stream_t.size(); ++i) stream_t[i] = tr.byte();
+			}
 			uint64_t total_calls = 0;
 			for (int64_t g = -1; g < (int64_t) total_calls || g < 0; ++g) {
 				SimCompressed s2;
-				s2.data = &p.stream;
+				s2.data = &stream_t;
 				s2.short_max = (size_t) p.geti("short", 1);
 				s2.gap_at = g;
 				LibScope ls("gap");
 				LHADecoder *d = lha_decoder_new(dt, SimCompressed::cb, &s2, declared);
 				if (!d) break;
 				Bytes buf(1500);
+				size_t produced = 0;
 				for (int r = 0; r < 64; ++r) {
 					size_t n = lha_decoder_read(d, buf.data(), buf.size());
 					if (n > buf.size()) { res.fail("C09.read_exceeds_request", "read_exceeds_request", "read returned more than asked"); break; }
 					if (n == 0) break;
+					produced += n;
 				}
+				if (g < 0) { count("max.gap_sweep_bytes_decoded", 0); if (produced > g_sim.counters["max.gap_sweep_bytes_decoded"]) g_sim.counters["max.gap_sweep_bytes_decoded"] = produced; if (getenv("VERIF_DEBUG_SWEEP")) fprintf(stderr, "sweep: %zu bytes decoded without a gap, %llu requests\n", produced, (unsigned long long) s2.calls); }
 				lha_decoder_free(d);
 				++evals;
 				if (g < 0) total_calls = std::min<uint64_t>(s2.calls, 5000);
 				if ((evals & 63) == 0) sim_watchdog_kick();
+			}
 			}
 			t_budget_jb = nullptr;
 			g_sim.counters["evals"] = evals;
